@@ -16,6 +16,9 @@ pub struct RuleDoc {
   pub message: String,
   pub note: Option<String>,
   pub severity: String,
+  /// a rule with a fix goes through the "diff" printers of every front end
+  #[serde(default)]
+  pub fix: Option<String>,
 }
 
 #[derive(Clone, Debug, Serialize, Deserialize)]
@@ -58,8 +61,8 @@ pub fn strategy() -> BoxedStrategy<Choice> {
   let op = (0u8..10, 0u8..3, 0u8..8, 0u8..4).prop_map(|(kind, doc, ver, text)| OpC { kind, doc, ver, text });
   (
     0u8..4,
-    prop::collection::vec((0u8..5, 0u8..9), 1..=4),
-    prop::collection::vec(prop::collection::vec(0u8..12, 1..7), 2..=4),
+    prop::collection::vec((0u8..7, 0u8..9), 1..=4),
+    prop::collection::vec(prop::collection::vec(0u8..14, 1..7), 2..=4),
     prop::collection::vec(op, 0..18),
     prop::bool::weighted(0.3),
   )
@@ -86,6 +89,9 @@ const STMTS: &[&str] = &[
   "foo(\n  1\n)",
   "qux(foo(8))",
   "bar(baz(6), 7)",
+  // nested matches of one rule: with a fix their replaced ranges overlap
+  "foo(foo(5))",
+  "baz(foo(foo(1)), foo(2))",
 ];
 
 fn render(lang: &str, stmts: &[u8]) -> String {
@@ -125,8 +131,13 @@ pub fn interpret(ch: &Choice, _st: &mut Stats) -> Option<Case> {
       _ => "off",
     }
     .to_string();
+    let fix = match t {
+      5 => Some("bar($A)".to_string()),
+      6 => Some("foo()".to_string()),
+      _ => None,
+    };
     let (pattern, message, note) = match t {
-      0 => ("foo($A)", "found $A", None),
+      0 | 5 => ("foo($A)", "found $A", None),
       1 => ("bar($$$ARGS)", "args: $$$ARGS end", Some("a note about bar")),
       2 => ("baz($A)", "", None),
       3 => ("qux($A)", "q $A $A", Some("note")),
@@ -138,6 +149,7 @@ pub fn interpret(ch: &Choice, _st: &mut Stats) -> Option<Case> {
       message: message.into(),
       note: note.map(String::from),
       severity,
+      fix,
     });
   }
   let texts: Vec<String> = ch.texts.iter().map(|t| render(lang, t)).collect();
@@ -197,6 +209,9 @@ fn rule_yaml(lang: &str, r: &RuleDoc) -> String {
   let mut rule = serde_yaml::Mapping::new();
   rule.insert(ys("pattern"), ys(&r.pattern));
   m.insert(ys("rule"), serde_yaml::Value::Mapping(rule));
+  if let Some(f) = &r.fix {
+    m.insert(ys("fix"), ys(f));
+  }
   serde_yaml::to_string(&serde_yaml::Value::Mapping(m)).unwrap()
 }
 
@@ -533,7 +548,7 @@ pub fn run(cfg: &RunCfg) -> i32 {
     return crate::replay_main::<Case>(cfg, path, check);
   }
   crate::replay_known::<Case>(&mut report, &known, check);
-  let total = cfg.budget(400, 5_000);
+  let total = cfg.budget(1_000, 8_000);
   let o = drive(cfg, "front-ends", total, &known, strategy, interpret, check);
   report.absorb("front-ends", o);
   cli::cleanup_work_root();
